@@ -6,6 +6,7 @@ import Driver.Util
 
 `C13.run <mode> <dimAware> <ps> <outsPath> <params> <value> <fs>`
 * mode     `p` = one parameter through `moveOut` (value = its JSON value),
+           `o2` = `processStructOuts` twice on the same record (interrupted post-process + restart),
            `o` = `processStructOuts` (value = the `_outs` object),
            `a`/`m` = `postProcess` of a top-level call mapped over an array / a typed map
 * dimAware `g` = the regenerated fact, `t`/`f` = forced
@@ -150,26 +151,6 @@ def renderFS (fs : FS) : String :=
   let ents := ps.filterMap fun p => (fs.get p).map fun e => strHex (renderPath p) ++ "=" ++ renderEntry e
   if ents.isEmpty then "." else ",".intercalate ents
 
-/-- `Fork.postProcess` for a top-level call mapped over an array: `_outs` is an
-array of records, record `i` goes to `outs/<i>` (plain decimal). -/
-def postArray (da : Bool) (ps : Path) (params : List (String × String × Ty)) (outs : Path) :
-    Nat → List J → FS → List J × FS
-  | _, [], fs => ([], fs)
-  | i, x :: xs, fs =>
-    let r := processStructOuts da ps params x (outs ++ [toString i]) fs
-    let rs := postArray da ps params outs (i + 1) xs r.2
-    (r.1 :: rs.1, rs.2)
-
-/-- … over a typed map: record `k` goes to `outs/<k>`; Go iterates its map in
-no particular order — the driver uses the order given. -/
-def postMap (da : Bool) (ps : Path) (params : List (String × String × Ty)) (outs : Path) :
-    List (String × J) → FS → List (String × J) × FS
-  | [], fs => ([], fs)
-  | (k, x) :: xs, fs =>
-    let r := processStructOuts da ps params x (outs ++ [k]) fs
-    let rs := postMap da ps params outs xs r.2
-    ((k, r.1) :: rs.1, rs.2)
-
 def handle (op : String) (args : List String) : Option String :=
   match op, args with
   | "run", [mode, da, ps, outs, params, value, fs] => do
@@ -183,6 +164,9 @@ def handle (op : String) (args : List String) : Option String :=
     let r ← (match mode, params, v with
       | "p", [(id, on, ty)], v => some (moveOut da ps ty id on v outs fs)
       | "o", params, v => some (processStructOuts da ps params v outs fs)
+      | "o2", params, v =>
+        -- post-processing interrupted before `_outs` was rewritten, then run again on the same record
+        some (processStructOuts da ps params v outs (processStructOuts da ps params v outs fs).2)
       | "a", params, .arr xs =>
         let r := postArray da ps params outs 0 xs fs
         some (J.arr r.1, r.2)
